@@ -8,6 +8,7 @@ import Adc.Expand
 import Adc.Series
 import Adc.Scaling
 import Adc.Latex
+import Adc.DeltaEval
 /- Line-protocol driver: one JSON request per line on stdin, one JSON answer per line on stdout. -/
 open Lean Adc Adc.Wire
 
@@ -201,6 +202,16 @@ def handle (j : Json) : P Json := do
       | none => pure (Json.mkObj [("ok", false)])
       | some t => pure (Json.mkObj [("ok", true), ("name", (String.ofList t.name : Json)), ("groups", jGroups t.groups),
                                     ("expo", (String.ofList t.expo : Json))])
+  | "deltastep" =>   -- C09: one recursion level of evaluate_deltas (decision + substitution)
+    let t ← pTerm (← fld j "t")
+    let targets ← pIdxs (← fld j "targets")
+    let order ← (← arr (← fld j "order")).toList.mapM fun x => x.getNat?
+    match chooseDelta t targets order with
+    | none => pure (Json.mkObj [("step", false)])
+    | some (k, b) =>
+      match elimDelta t k b with
+      | none => pure (Json.mkObj [("step", true), ("k", k), ("kill_second", b), ("applies", false)])
+      | some t' => pure (Json.mkObj [("step", true), ("k", k), ("kill_second", b), ("applies", true), ("t", jTerm t')])
   | _ => throw s!"unknown op {op}"
 
 partial def loop (h : IO.FS.Stream) (out : IO.FS.Stream) : IO Unit := do
